@@ -181,12 +181,12 @@ def sym_names(r):
 # ---------------------------------------------------------------- oracle + property
 
 
-def box_contains(box, leaves, ufo, factor):
+def box_contains(box, leaves, ufo, factor, points=None):
     conj = []
     xMin, yMin, xMax, yMax = [core.as_term(v) for v in box]
     half = z3.RealVal(Fraction(1, 2))
     for leaf in leaves:
-        for pt in control_points(ufo, leaf.glyph):
+        for pt in (points if points is not None else control_points(ufo, leaf.glyph)):
             qx, qy = ps.apply(leaf.M, pt)
             qx, qy = core.as_term(qx), core.as_term(qy)
             conj += [xMin <= qx + half, qx - half <= xMax, yMin <= qy + half, qy - half <= yMax]
@@ -264,6 +264,72 @@ def job_bounds(jc):
         jc.prove(r, box_contains(box, leaves, ufo, factor), "box ⊇ every transformed control point (±1/2); edges ≡ 0 mod step",
                  inp, replay_bounds, key="C05:bounds:contains", timeout_ms=60000)
         jc.sample(template=tmpl, outline=outline, factor=factor, box=[repr(v)[:60] for v in box][:2])
+    jc.expect_reached("box")
+
+
+# ---------------------------------------------------------------- symbolic outline vertices
+
+MATRICES = {"rot90": (0, 1, -1, 0), "flipX": (-1, 0, 0, 1), "flipY": (1, 0, 0, -1), "scale2": (2, 0, 0, 2), "shear": (1, 0.5, 0, 1), "squash": (0.5, 0, 0, 1.25), "rot45ish": (0.75, 0.625, -0.625, 0.75)}
+
+
+def sym_outline():
+    v = lambda n: core.real(n, -2000, 2000)
+    return [("moveTo", [(v("x0"), v("y0"))]), ("lineTo", [(v("x1"), v("y1"))]), ("qCurveTo", [(v("x2"), v("y2")), (v("x3"), v("y3"))]), ("closePath", [])]
+
+
+def replay_symverts(inp):
+    m, factor = inp["matrix"], inp["factor"]
+    g = lambda n: float(inp.get(n, 0.0))
+    ops = [("moveTo", [(g("x0"), g("y0"))]), ("lineTo", [(g("x1"), g("y1"))]), ("qCurveTo", [(g("x2"), g("y2")), (g("x3"), g("y3"))]), ("closePath", [])]
+    ufo = make_ufo({"sym": ops})
+    layer = P.PaintTransform(transform=MATRICES[m] + (g("dx"), g("dy")), paint=G("sym"))
+    try:
+        box = WF._bounds(color_glyph(ufo, [layer]), factor)
+    except Exception as e:
+        return {"raised": repr(e)}
+    worst = 0.0
+    for pt in control_points(ufo, "sym"):
+        qx, qy = ps.apply(layer.transform, pt)
+        worst = max(worst, box[0] - qx, qx - box[2], box[1] - qy, qy - box[3])
+    if worst > 0.5 + 1e-6 or (factor > 1 and any(v % factor for v in box)):
+        return {"box": list(box), "protrusion": worst, "outline": ops, "transform": list(layer.transform)}
+    return None
+
+
+def job_bounds_symverts(jc):
+    """Outline vertices symbolic, linear part of the placing transform from a finite list, translation symbolic."""
+    jc.encode(WF._bounds, WF._transformed_glyph_bounds, WF._quantize_bounding_rect)
+    m, factor = jc.params["matrix"], jc.params["factor"]
+    names = [f"{a}{i}" for i in range(4) for a in "xy"] + ["dx", "dy"]
+    inp = {n: core.SymNum(z3.Real(n)) for n in names}
+    inp.update({"matrix": m, "factor": factor})
+
+    def body():
+        ufo = make_ufo({})
+        # point pen: the segment-pen adapter guesses smoothness with math.atan2 (C)
+        pp = ufo.newGlyph("sym").getPointPen()
+        ops = sym_outline()
+        pp.beginPath()
+        pp.addPoint(ops[0][1][0], "line")
+        pp.addPoint(ops[1][1][0], "line")
+        pp.addPoint(ops[2][1][0], None)
+        pp.addPoint(ops[2][1][1], "qcurve")
+        pp.endPath()
+        layer = P.PaintTransform(transform=MATRICES[m] + (core.real("dx", -TR, TR), core.real("dy", -TR, TR)), paint=G("sym"))
+        pts = [ops[0][1][0], ops[1][1][0], ops[2][1][0], ops[2][1][1]]
+        return ufo, layer, WF._bounds(color_glyph(ufo, [layer]), factor), pts
+
+    with bounds_shims():
+        results = jc.explore(body, feas_timeout_ms=1500)
+    for r in results:
+        if not jc.no_exception(r, inp, replay_symverts, "C05:symverts:raises"):
+            continue
+        ufo, layer, box, pts = r.value
+        jc.reach(r, "box")
+        with core.post(r):
+            leaves = ps.denote(layer)
+        jc.prove(r, box_contains(box, leaves, ufo, factor, points=pts), "box ⊇ every transformed control point of an outline with symbolic vertices; edges ≡ 0 mod step",
+                 inp, replay_symverts, key="C05:symverts:contains", timeout_ms=60000)
     jc.expect_reached("box")
 
 
@@ -488,6 +554,9 @@ def jobs(tier):
     for order in orders:
         for upem, quant in ((1000, None), (2048, None), (1000, 1), (1024, 7)):
             js.append(Job(f"colr_ufo[{order},upem={upem},q={quant}]", job_colr_ufo, order=order, upem=upem, quant=quant))
+    for m in (("rot90", "shear") if tier == "quick" else MATRICES):
+        for f in ((1, 20) if tier == "quick" else (1, 7, 20, 41)):
+            js.append(Job(f"bounds_symverts[{m},step={f}]", job_bounds_symverts, matrix=m, factor=f))
     for f in [x for x in factors if x > 1]:
         js.append(Job(f"fp_lemma[floor,f={f}]", job_fp_lemma, op="floor", max_x=65536, max_f=f))
         js.append(Job(f"fp_lemma[ceil,f={f}]", job_fp_lemma, op="ceil", max_x=65536, max_f=f))
@@ -502,9 +571,9 @@ def main(tier):
         explanation="Bounded symbolic execution of write_font._bounds/_transformed_glyph_bounds/_quantize_bounding_rect and the clip-box lines of _colr_ufo through fontTools' pens on real ufoLib2 glyphs, with symbolic paint transforms; oracle = spec matrix chain applied to every control point. Plus a QF_FP lemma for the float division in the quantiser.",
         bounds={"linear entries": f"[-{LIN},{LIN}]", "translations": f"[-{TR},{TR}]", "scales (F2Dot14 paints)": "[-2,2]",
                 "quantisation steps": "1,2,5,20,41,64 and round(2% upem) for upem in 100,1000,1024,2048",
-                "outlines": "concrete: square, triangle, quadratic blob, off-origin cubic", "nesting": "one transform paint above a PaintGlyph (all nanoemoji emits); PaintColrLayers of 3; group composite with 2 layers",
+                "outlines": "concrete: square, triangle, quadratic blob, off-origin cubic; plus one outline with 4 symbolic vertices under a finite list of linear parts and a symbolic translation", "nesting": "one transform paint above a PaintGlyph (all nanoemoji emits); PaintColrLayers of 3; group composite with 2 layers",
                 "fp lemma": "|x| <= 65536, step in the list (one QF_FP query per step and per floor/ceil)"},
-        outside=["curve extrema vs control box (control box ⊇ curve)", "fontTools glyf coordinate rounding (the 1/2 unit)", "variable clip boxes", "symbolic outline vertices x symbolic transform (nonlinear)"],
+        outside=["curve extrema vs control box (control box ⊇ curve)", "fontTools glyf coordinate rounding (the 1/2 unit)", "variable clip boxes", "symbolic outline vertices x symbolic linear part (nonlinear)"],
         assumptions=["float as exact real except for the division lemma (QF_FP)", "fontTools min/max replaced by non-forking If (semantically identical)"],
         shims=["std shims", "fontTools.misc.roundTools.math/int", "nanoemoji.write_font.math/int/round", "fontTools.misc.arrayTools min/max + updateBounds defaults"],
         stubs=["_migrate_paths_to_ufo_glyphs -> identity (colr_ufo job)", "uniq_sort_cpal_colors -> fixed palette (colr_ufo job)"],
